@@ -299,6 +299,76 @@ CHECKS = {
     design_ref="DESIGN.md §1 C17",
     note="flume, thread::spawn, Box/Arc plumbing are assumptions (coverage.summaries); SC atomics; panic transport and the "
          "driver's completion channel are outside. Two genuine defects found here were repaired (/repo 186dec9, db2ede8)."),
+ "C15": dict(
+    engine="mirsym",
+    technique="symbolic execution of the MIR of compio-tls's native-tls shim (OpensslInner, AllowStd) and handshake wrapper "
+              "(compat::native::handshake, as its coroutine) and of compio-ws's poll_next / poll_flush, with an adversarial "
+              "transport and the TLS / WebSocket libraries abstracted to the finite set of answers their entry points can give; "
+              "every combination of states and answers is enumerated, z3 discharges the (propositional) obligations",
+    category="model_checking",
+    text="Bounded model checking over the real MIR of THREE mechanisms of the property, not of the TLS / WebSocket libraries. "
+         "(1) native-tls shim, one call from every state (handshake finished or not, output written since the last flush or not) "
+         "and every transport answer (Pending / Ok / Err, <= 4 polls): during the handshake unflushed output is flushed before the "
+         "transport is asked for input, a pending / failed flush makes the read pending / fail, flush is deferred during the "
+         "handshake and reaches the transport afterwards, an accepted write is remembered, Pending becomes WouldBlock and back, "
+         "errors and results pass through unchanged, every transport poll carries the smuggled Context. (2) handshake wrapper, "
+         "to completion for every outcome of the library's handshake calls (error / done at once / would block, then pending / "
+         "finished / error) and of the final flush: every stream handed out by connect / accept has left handshake mode and was "
+         "flushed to completion after that. (3) compio-ws: an item is yielded only after the protocol flush and then the transport "
+         "flush completed, a pending or failed flush keeps the received item (never dropped or overwritten), poll_flush answers "
+         "Ok only after both flushes.",
+    design_ref="DESIGN.md §1 C15",
+    note="Partial by construction: what native-tls / OpenSSL / rustls / futures-rustls / tungstenite do — the record layer, the "
+         "handshake state machines, framing, close — is not executed, so 'data read unchanged, in order, exactly once' and 'clean "
+         "close' are NOT claimed; nor is absence of deadlock for whole sessions (only the flush-before-wait and flush-before-yield "
+         "rules that the adapters contribute). One genuine defect repaired (/repo d7967f6). The rustls and py-dynamic-openssl back "
+         "ends are outside."),
+ "C16": dict(
+    engine="mirsym",
+    technique="symbolic execution of the MIR of compio-quic's connection state (ConnectionState::{terminate, close, wake}, "
+              "wake_all_streams, ConnectionInner::{state, try_state}, Connection::{poll_recv_datagram, poll_open_stream, "
+              "poll_accept_stream}) with quinn-proto abstracted to nothing / something answers; waker containers are ghost bags whose "
+              "field list is parsed from the struct definition on every run; all paths are enumerated, z3 discharges the "
+              "(propositional) obligations",
+    category="model_checking",
+    text="Bounded model checking over the real MIR of ONE half-clause of the property — 'closing a connection completes every pending "
+         "… datagram, open and accept future with an error instead of leaving it hanging', connection level: (a) terminate(reason) and "
+         "close(code, reason) store the error, mark the connection not connected, and wake exactly once every waker held in any "
+         "field of ConnectionState that can hold one (0 / 1 / 2 wakers per container; Option<Waker>, VecDeque<Waker>, "
+         "[VecDeque<Waker>; 2], HashMap<StreamId, Waker>), leaving those fields empty; (b) poll_recv_datagram / poll_open_stream / "
+         "poll_accept_stream, polled after termination, return the stored error at once without registering a waker or touching "
+         "quinn-proto; polled before, they answer Ready with what quinn-proto handed out or register the caller's waker in a "
+         "container that terminate drains (under the right direction) and answer Pending. Both run under the connection's mutex, "
+         "so a future is either woken by the close or sees its error.",
+    design_ref="DESIGN.md §1 C16",
+    note="Partial by construction: ordered exactly-once stream delivery, finish / end-of-stream, flow control, datagram independence "
+         "(quinn-proto, UDP sockets, the connection worker) are NOT covered and not claimed; nor are the stream-level futures of "
+         "send_stream.rs / recv_stream.rs (their containers are covered by (a); that each checks state.error before registering "
+         "was read, not executed), endpoint close, or the worker's reaction to the close."),
+ "C19": dict(
+    engine="mirsym",
+    technique="symbolic execution of the MIR of compio-actor's process group (ProcessGroup::{send, join}, Membership::drop, "
+              "Strategy::select) and name registry (Registry::{reserve, get}, Registration::{activate, drop}) over a bounded member list with a symbolic round-robin cursor and adversarial mailbox answers; "
+              "z3 decides the cursor arithmetic, the member answers are enumerated exhaustively",
+    category="model_checking",
+    text="Bounded model checking over the real MIR of TWO clauses of the property. (1) 'a process group routes each message to exactly "
+         "one live, non-full member or hands it back': for every group of 0..3 (thorough: 0..5) members, every value of the "
+         "round-robin cursor and every combination of member answers (accepts / mailbox full / mailbox closed), send asks every "
+         "member at most once starting at member cursor % N, answers Ok iff exactly one member accepted (the last one asked), "
+         "otherwise hands back the same message after having asked every member, with Full iff some mailbox was full and Closed "
+         "otherwise; closed members are evicted, all others stay (each exactly once); the cursor advances by one; no index, remainder or "
+         "overflow panic is reachable. join appends one member whose id was never issued before (invariant: every id issued so far is "
+         "below next_id); dropping a Membership removes exactly the member "
+         "with its id, or nothing when the group is gone. (2) the name registry (Registry::{reserve, get}, Registration::{activate, "
+         "drop}), for a name that is absent / reserved / active: a reserved or active name is refused and left alone, a free one is "
+         "reserved without becoming visible, get resolves only active names (to their own mailbox), activate makes the name "
+         "resolve to the new mailbox, dropping the registration frees the name, other names are never touched.",
+    design_ref="DESIGN.md §1 C19",
+    note="Partial by construction: the other clauses of C19 — serial FIFO handling of a mailbox, lifecycle-hook order (including when "
+         "the spawn path activates / drops a registration), call replies once the actor is gone, supervisor — live in third-party "
+         "MPMC channels, a biased select and whole runtimes; they are NOT covered by this check and no claim is made about them. "
+         "HashMap / OnceLock are summaries in clause (2). One call holds the group's mutex, so calls are atomic with respect to each other; "
+         "Arc / Weak / Mutex / Vec are summaries."),
  "C07": dict(
     engine="mirsym",
     technique="symbolic execution of the MIR of the fallback buffer pool (BufferPool/Shared/BufferRef + fallback BufControl, closures "
@@ -319,11 +389,8 @@ CHECKS = {
 }
 
 NOT_APPLICABLE = {
- "C15": "behaviour lives in OpenSSL/rustls/tungstenite state machines behind FFI and megabytes of third-party code; no bounded symbolic encoding within reach (DESIGN.md §2)",
- "C16": "quinn-proto + real UDP sockets + timers + worker task; nothing of the property is decidable by symbolic execution of in-repo code (DESIGN.md §2)",
- "C18": "property of OS threads, MPMC channels and whole runtimes; Kani has no threads and a MIR-level model would have to summarise everything the property is about (DESIGN.md §2)",
- "C19": "same as C18: actors run on whole runtimes and crossfire/flume channels (DESIGN.md §2)",
- "C20": "fork/exec/pidfd/wait: kernel and child-process behaviour (DESIGN.md §2)",
+ "C18": "property of OS threads, MPMC channels and whole runtimes; Kani has no threads and a MIR-level model would have to summarise everything the property is about (DESIGN.md §1, end)",
+ "C20": "fork/exec/pidfd/wait: kernel and child-process behaviour (DESIGN.md §1, end)",
 }
 
 PENDING = {}  # filled below for properties whose check is still under construction
